@@ -68,6 +68,9 @@ IMPL = {
     "tx_deser": lambda b: _bits().tx.tx_deser(b, include_raw=True),
     # the command line entry point (`bits tx`), run in-process through harness/cli.py
     "twice": lambda name, kind, A, B: _twice(name, kind, A, B),
+    # sequences in ONE process: several buffers deserialised / several transactions serialised one after the other
+    "deser_seq": lambda bufs: _seq(lambda b: txgen.canon_tx_deser_worker(_bits().tx.tx_deser(b, include_raw=True)), bufs),
+    "ser_seq": lambda ts: _seq(lambda t: txgen.api_ser(txgen.norm_tx(t)), ts),
     "cli_tx_build": lambda t, style: txgen.cli_build(t, style),
     "cli_tx_decode": lambda b, fmt, style: txgen.cli_decode(b, fmt, style),
 }
@@ -103,7 +106,21 @@ def _twice(name, kind, A, B):
     return (_plain(ra), _plain(rb), _plain(objs_a), _plain(objs_b))
 
 
+def _seq(f, xs):
+    out = []
+    for x in xs:
+        try:
+            out.append(["ok", f(x)])
+        except Exception:
+            out.append(["err", None])
+    return out
+
+
 def model_call(c):
+    if c["op"] == "deser_seq":
+        return [("c05_tx_deser", [b]) for b in c["args"][0]]
+    if c["op"] == "ser_seq":
+        return [("c05_tx_ser", [t]) for t in c["args"][0]]
     if c["op"] == "twice":
         return "c05_twice", c["args"]
     """cli_* ops are compared with the EXISTING model ops (the extracted Coq model is the expected value)"""
@@ -394,6 +411,24 @@ def _reuse_cases(rng, T):
         buf = txgen.ref_stack([R(2), b"", R(3)]) + R(2)
         yield "wit_deser", [buf], [buf]
 
+    # fingerprint-colliding pairs (equal length, equal crc32 / adler32 / byte sum / word xor / head+tail) in sequence
+    for name, kind, ta, tb in txgen.collision_pairs():
+        sa, sb = txgen.ref_ser(ta), txgen.ref_ser(tb)
+        out.append(case("collide-%s-%s-deser-pair" % (name, kind), "deser_seq", [sa, sb + sa[-4:], sa]))
+        out.append(case("collide-%s-%s-ser-pair" % (name, kind), "ser_seq", [ta, tb, ta]))
+    # repeated elements through the byte-level builder and the command line
+    i0 = txgen.ref_txin(txgen.gen_txin(rng, 2))
+    o0 = txgen.ref_txout(txgen.gen_txout(rng, 3))
+    for n in (2, 3, 30):
+        out.append(case("raw-tx-identical-txins-%d" % n, "tx_raw", [i0] * n, [o0], 1, 0, []))
+        out.append(case("raw-tx-identical-txouts-%d" % n, "tx_raw", [i0], [o0] * n, 2, 0, [b"\x00"]))
+        out.append(case("raw-tx-identical-witnesses-%d" % n, "tx_raw", [i0, i0[::-1]] * n, [o0], 2, 0, [b"\x01\x00"] * (2 * n)))
+    same_op = txgen.gen_txin(rng, 1)
+    for sw in (False, True):
+        ins = [same_op[:3] + (txgen.FINAL_SEQ,), txgen.gen_txin(rng, 0)[:3] + (txgen.FINAL_SEQ,), (same_op[0], same_op[1], b"\x52", txgen.FINAL_SEQ)]
+        t = (2, ins, [txgen.gen_txout(rng, 3)] * 2, [[b"\x01"], [], [b"\x01"]] if sw else None, 0)
+        for style in (0, 1):
+            out.append(case("cli-build-dup-outpoint-%s" % ("segwit" if sw else "legacy"), "cli_tx_build", t, style))
     for _ in range(12 if T else 2):
         for name, A, B in pairs():
             for kind in ("bytes", "bytearray"):
@@ -479,7 +514,10 @@ def _wf(t):
 def roundtrip_statement(t, trailer):
     """deser(ser(t) ++ trailer) = (fields t, trailer), canonical bytes, re-serialisation reproduces them"""
     import bits.tx as m
-    ser = txgen.api_ser(t)
+    try:
+        ser = txgen.api_ser(t)
+    except Exception as e:
+        return "the serialiser refuses a well-formed transaction: %s: %s" % (type(e).__name__, e)
     want = txgen.ref_ser(t)
     if ser != want:
         k = next((i for i in range(min(len(ser), len(want))) if ser[i] != want[i]), min(len(ser), len(want)))
@@ -593,6 +631,30 @@ def prop_oracle(c):
         got = _wit_deser(ser + rest)
         if (list(got[0]), got[1]) != (items, rest):
             return "decode_script(script(items, witness=True) + rest, witness=True) != (items, rest)"
+        return None
+    if op == "ser_seq":
+        for k, t in enumerate(a[0]):
+            t = txgen.norm_tx(t)
+            if _wf(t):
+                v = roundtrip_statement(t, b"")
+                if v:
+                    return "transaction %d of the sequence: %s" % (k + 1, v)
+        got = IMPL["ser_seq"](a[0])
+        for k, (t, g) in enumerate(zip(a[0], got)):
+            if _wf(txgen.norm_tx(t)) and (g[0] != "ok" or g[1] != txgen.ref_ser(txgen.norm_tx(t))):
+                return "call %d of the sequence does not serialise the fields given" % (k + 1)
+        return None
+    if op == "deser_seq":
+        got = IMPL["deser_seq"](a[0])
+        for k, (b, g) in enumerate(zip(a[0], got)):
+            p = txgen.ref_parse(b)
+            if p is None:
+                continue
+            t, used = p
+            if g[0] != "ok":
+                return "call %d of the sequence: a well-formed transaction is refused" % (k + 1)
+            if txgen.norm_tx(g[1][0][3]) != txgen.norm_tx(t) or g[1][1] != b[used:]:
+                return "call %d of the sequence (after %d other call(s) in this process): fields / leftover are not those serialised" % (k + 1, k)
         return None
     if op == "twice":
         name, kind, A, B = a
